@@ -321,6 +321,32 @@ def gen_simple(tier, rng):
         yield Case("c14.secret %s %s %s" % (H(key), H(stream), table([(key + stream, md5raw(key + stream))])), cls="secret")
 
 
+def smsub_line(flags, key, override, kind, stream, param):
+    v = query_get(param, b"lal_secret")
+    lows = []
+    for x in (v, override):
+        if x and not all(c < 0x80 for c in x):
+            lows.append((x, go_lower(x)))
+    return "c14.smsub %d %s %s %d %s %s %s %s %s" % (
+        flags, H(key), H(override), kind, H(stream), H(param),
+        table([(key + stream, md5raw(key + stream))]), pq_tok(param), table(lows))
+
+
+def gen_smsub(tier, rng):
+    """a real ServerManager is offered real httpflv / httpts subscriber sessions"""
+    for ci, (key, ovr) in enumerate(CONFIGS[:5]):
+        for stream in (b"test110", b"TEST110"):
+            forms = secret_forms(key, stream, ovr)
+            for fi, flags in enumerate((4, 8, 12, 127, 0, 115)):
+                for k, (name, param) in enumerate(forms):
+                    if b"#" in param or any(c < 0x21 or c == 0x7f for c in param):
+                        continue
+                    if tier == "quick" and (ci + fi + k) % 3 and name not in ("absent", "wrong", "right-lower", "right-upper", "override-exact"):
+                        continue
+                    for kind in (0, 1):
+                        yield Case(smsub_line(flags, key, ovr, kind, stream, param), cls="smsub-" + name)
+
+
 def parse_simple(f):
     return (int(f[1]), tok_bytes(f[2]), tok_bytes(f[3]), int(f[4]), tok_bytes(f[5]), tok_bytes(f[6]), tok_bytes(f[7]))
 
@@ -650,6 +676,7 @@ def bl_expected(sc):
 def gen_cases(tier, rng):
     yield from gen_bl(tier, rng)
     yield from gen_simple(tier, rng)
+    yield from gen_smsub(tier, rng)
     yield from gen_rtsp(tier, rng)
     yield from gen_paths(tier, rng)
 
@@ -677,6 +704,16 @@ def oracle(c, out):
             return (False, "unexpected output " + out)
         return (got == exp, "simple-auth %s a request that should be %s (flags=%d dir=%d proto=%r stream=%r param=%r override=%r)" % (
             "admits" if got else "rejects", "admitted" if exp else "rejected", a[0], a[3], a[4], a[5], a[6], a[2]))
+    if op == "c14.smsub":
+        flags, key, ovr, kind = int(f[1]), tok_bytes(f[2]), tok_bytes(f[3]), int(f[4])
+        exp = simple_expected_admit(flags, key, ovr, 1, b"FLV" if kind == 0 else b"TS", tok_bytes(f[5]), tok_bytes(f[6]))
+        o = out.split(" ")
+        if len(o) != 3:
+            return (False, "unexpected output " + out)
+        if exp:
+            return (o == ["0x0", "0x1", "1"], "an authorised subscriber is not admitted / listed / answered: " + out)
+        return (o[0] != "0x0" and o[1] == "0x0" and o[2] == "0",
+                "a subscriber that must be rejected is admitted, listed by the stat API or receives bytes: " + out)
     if op == "c14.secret":
         return (tok_bytes(out) == md5hex(tok_bytes(f[1]) + tok_bytes(f[2])), "SimpleAuthCalcSecret is not md5(key+stream)")
     if op == "c14.describe":
